@@ -12,6 +12,7 @@ import (
 	"strconv"
 	"strings"
 	"sync"
+	"sync/atomic"
 
 	secp256k1 "gitlab.com/yawning/secp256k1-voi"
 	"gitlab.com/yawning/secp256k1-voi/secec"
@@ -41,6 +42,13 @@ type shared struct {
 	opts *secec.ECDSAOptions
 	dst  []byte
 	csig []byte
+	pt2  *secp256k1.Point // a second shared point (the right-hand operand of non-commutative operations)
+	// fresh key objects nobody has looked at yet: every one is shared by a whole group of consecutive callers, so that the FIRST use
+	// of an object (a lazily derived half, a cache) happens in several goroutines at once
+	freshKeys []*secec.PrivateKey
+	freshPub  []string
+	freshCtr  atomic.Int64
+	group     int64
 }
 
 func optsImage(o *secec.ECDSAOptions) []byte {
@@ -54,7 +62,7 @@ func (sh *shared) images() map[string][]byte {
 	// exported views only (the deep memory images need the verif accessors)
 	return map[string][]byte{
 		"priv": sh.priv.Bytes(), "pub": sh.pub.Bytes(), "peer": sh.peer.Bytes(), "spriv": sh.spriv.Bytes(), "spub": sh.spub.Bytes(),
-		"pt": sh.pt.UncompressedBytes(), "sc": sh.sc.Bytes(), "sig_r": sh.sig[0].Bytes(), "sig_s": sh.sig[1].Bytes(),
+		"pt": sh.pt.UncompressedBytes(), "pt2": sh.pt2.UncompressedBytes(), "sc": sh.sc.Bytes(), "sig_r": sh.sig[0].Bytes(), "sig_s": sh.sig[1].Bytes(),
 		"dig": append([]byte{}, sh.dig...), "ssig": append([]byte{}, sh.ssig...),
 	}
 }
@@ -201,6 +209,52 @@ func concOps() []concOp {
 			}
 			return hx(k.Bytes()) + hx(k2.CompressedBytes())
 		}},
+		{"pointops_shared_rhs", func(sh *shared, arg int) string { // the shared points as LEFT and RIGHT operands of every binary / unary operation
+			a := secp256k1.NewIdentityPoint().Subtract(sh.pt, sh.pt2)
+			b := secp256k1.NewIdentityPoint().Subtract(sh.pt2, sh.pt)
+			cs := secp256k1.NewIdentityPoint().ConditionalSelect(sh.pt, sh.pt2, uint64(arg&1))
+			cn := secp256k1.NewIdentityPoint().ConditionalNegate(sh.pt2, uint64(arg>>1&1))
+			st := secp256k1.NewIdentityPoint().Set(sh.pt2)
+			cp := secp256k1.NewPointFrom(sh.pt)
+			sum := secp256k1.NewIdentityPoint().Add(sh.pt2, sh.pt)
+			return hx(a.CompressedBytes()) + hx(b.CompressedBytes()) + hx(cs.CompressedBytes()) + hx(cn.CompressedBytes()) + hx(st.CompressedBytes()) +
+				hx(cp.CompressedBytes()) + hx(sum.CompressedBytes()) + strconv.Itoa(int(sh.pt.Equal(sh.pt2))) + strconv.Itoa(int(sh.pt2.IsIdentity()))
+		}},
+		{"scalarops_shared", func(sh *shared, arg int) string { // the shared scalars as operands of every scalar operation
+			x, y := sh.sc, sh.sig[arg&1]
+			n := secp256k1.NewScalar
+			return scHex(n().Add(x, y)) + scHex(n().Subtract(x, y)) + scHex(n().Subtract(y, x)) + scHex(n().Multiply(x, y)) + scHex(n().Square(x)) +
+				scHex(n().Negate(y)) + scHex(n().Invert(x)) + scHex(n().ConditionalNegate(x, uint64(arg>>1&1))) + scHex(n().ConditionalSelect(x, y, uint64(arg&1))) +
+				scHex(n().Sum(x, y, x)) + scHex(n().Product(y, x, y)) + scHex(secp256k1.NewScalarFrom(x)) + scHex(n().Set(y)) +
+				strconv.Itoa(int(x.Equal(y))) + strconv.Itoa(int(x.IsZero())) + strconv.Itoa(int(y.IsGreaterThanHalfN())) + hx(x.Bytes())
+		}},
+		{"fresh_key_first_use", func(sh *shared, arg int) string { // the first look at a key object nobody has looked at yet, by a whole group at once
+			i := int((sh.freshCtr.Add(1) - 1) / sh.group)
+			if i >= len(sh.freshKeys) {
+				return "ok"
+			}
+			k := sh.freshKeys[i]
+			var got string
+			switch arg % 4 {
+			case 0:
+				got = hx(k.PublicKey().Bytes())
+			case 1:
+				got = hx(k.Public().(*secec.PublicKey).Bytes())
+			case 2:
+				x, _ := secp256k1.NewIdentityPoint().ScalarBaseMult(k.Scalar()).XBytes()
+				got = hx(bitcoin.NewSchnorrPrivateKeyFromECDSA(k).PublicKey().Bytes())
+				if got == hx(x) {
+					return "ok"
+				}
+				return "bad"
+			default:
+				got = hx(k.PublicKey().Point().UncompressedBytes())
+			}
+			if got == sh.freshPub[i] {
+				return "ok"
+			}
+			return "bad"
+		}},
 		{"sign_shared_opts", func(sh *shared, arg int) string { // every goroutine passes the SAME options object
 			sig, err := sh.priv.Sign(secec.RFC6979SHA256(), msg(arg), sh.opts)
 			if err != nil {
@@ -330,6 +384,13 @@ func concRun(c *ctx, hammer bool) {
 	sh.ssig, err = sh.spriv.Sign(&fixedReader{randBytes(rng, 32)}, sh.dig, nil)
 	if err != nil {
 		panic(err)
+	}
+	sh.pt2 = rep(mulG(randBig(rng, bigN)), add(randBig(rng, add(bigP, -1)), 1))
+	sh.group = int64(c.scale(32, 64))
+	for i := 0; i < 600; i++ {
+		dd := add(randBig(rng, add(bigN, -1)), 1)
+		sh.freshKeys = append(sh.freshKeys, privFrom(dd)) // (constructed, never looked at)
+		sh.freshPub = append(sh.freshPub, hx(mulG(dd).UncompressedBytes()))
 	}
 	sh.opts = &secec.ECDSAOptions{Encoding: secec.EncodingCompact}
 	optsAtStart := optsImage(sh.opts)
